@@ -69,7 +69,8 @@ def observation(chart) -> dict:
         for diff, tr in inner.items():
             dkeys.append(diff.name)
             tracks[f"{inst.name}/{diff.name}"] = obs_track(tr)
-        keys.append([inst.name, dkeys])
+        keys.append([inst.name, sorted(dkeys)])
+    keys.sort()  # mapping iteration order is not part of the observation (dict equality ignores it)
     return {
         "metadata": obs_metadata(chart.metadata),
         "sync": obs_sync(chart.sync_track),
